@@ -136,7 +136,7 @@ class Terms:
         if "bits" in k:
             return ("const", int(k["bits"]))
         if "bool" in k:
-            return ("const", bool(k["bool"]))
+            return ("const", bool(k["bool"]), "bool")  # 3-tuple: never equal to the integer constant 1/0
         if "char" in k:
             return ("const", int(k["char"]))
         if "str" in k:
